@@ -657,6 +657,8 @@ def run(ctx):
         'on the implementation independently of the model',
         'repaired behaviour is modelled for: ml_nonzero_nd block_j initialisation, MLMatrix._matvec output length, '
         'compute_sparsity_ij on different meshes (fixes/C15-*.patch)',
+        'a crash of the implementation process (bounds checks are off in the Cython code) is an outcome, not the end of the run: '
+        'cases run in forked children, a dead child is repeated case by case and call by call, the crashing input is the replay',
         'not modelled: memory safety of the Cython loops beyond index ranges, scipy sparse format conversions, uint32/size_t overflow',
     ]
     rng = ctx.rng
@@ -823,7 +825,8 @@ META = {
                   'knot-vector pairs (same/nested/unrelated meshes, degrees 0..4, repeated knots), partial Kronecker products and pattern '
                   'generators, evaluated by vm_compute; and the property is evaluated directly on the implementation with a plain-Python '
                   'dense Kronecker oracle, exhaustively over all 0/1 patterns of 2x2/2x3/3x2/3x3 blocks for one and two levels '
-                  '(3x3 pairs and 3 levels with 2x3 blocks exhaustive in the thorough tier, sampled in quick) and 2x2x2 for three levels.',
+                  '(3x3 pairs and 3 levels with 2x3 blocks exhaustive in the thorough tier, sampled in quick) and 2x2x2 for three levels; the same enumeration '
+                  '(every pattern, hence zero rows/columns in every position) drives utils.kron_partial (restrict and not, all rows unsorted) and from_kronecker against the dense Kronecker product.',
     'level_note': 'Trusted: Coq kernel + vm_compute; hand transcription (coq/C15/Model.v) validated by the exact correspondence run; '
                   'harness generators and the Python oracle. Not modelled: C-level memory safety, integer overflow of uint32/size_t, scipy format conversions.',
 }
